@@ -1,5 +1,6 @@
 """In-run oracles: invariants evaluated while a run proceeds (after every operation).
 Each judges public behaviour only, against the shadow and the reference model."""
+import re
 import xml.etree.ElementTree as ET
 
 from . import spec
@@ -206,8 +207,8 @@ class C12Compatible(Checker):
             return
         w.count('c12.rejections_judged')
         if m.extendable(self.pre + [op['c']['name']]):
-            w.violate('C12', 'compatible-child-rejected:' + ev['t'],
-                      {'elem': node.name, 'children': self.pre, 'offered': op['c']['name']})
+            w.violate('C12', 'compatible-child-rejected',
+                      {'elem': node.name, 'children': self.pre, 'offered': op['c']['name'], 'exc': ev['t']})
 
 
 class C12Unique(Checker):
@@ -262,15 +263,15 @@ class C19Documented(Checker):
 
     def after(self, w, op, ev):
         if ev.get('stdout'):
-            w.violate('C19', 'stdout in ' + self.opname(op, ev), {'bytes': ev['stdout'], 'text': w.cap[0][:120]})
+            w.violate('C19', 'stdout', {'in': self.opname(op, ev), 'text': scrub(w.cap[0][:160])})
         if ev.get('stderr'):
-            w.violate('C19', 'stderr in ' + self.opname(op, ev), {'bytes': ev['stderr'], 'text': w.cap[1][:120]})
+            w.violate('C19', 'stderr', {'in': self.opname(op, ev), 'text': scrub(w.cap[1][:160])})
         if ev['r'] != 'exc':
             return
         e = w.last_exc
         t = ev['t']
         if t == 'SimHang':
-            w.violate('C19', 'hang in ' + self.opname(op, ev), None)
+            w.violate('C19', 'hang', {'in': self.opname(op, ev)})
             return
         if t == 'SimInterrupt':
             return
@@ -282,14 +283,19 @@ class C19Documented(Checker):
                 return
         if isinstance(e, w.lib.documented):
             if w.stdout_closed and isinstance(e, ValueError) and 'closed file' in str(e):
-                w.violate('C19', 'stdout in ' + self.opname(op, ev), {'closed': True})
+                w.violate('C19', 'stdout', {'in': self.opname(op, ev), 'closed': True})
             return
         if isinstance(e, AttributeError) and self.unknown_dot_name(w, op):
             return
-        w.violate('C19', 'internal:%s in %s' % (t, self.opname(op, ev)), {'raised_in': _where(e, w.lib.path)})
+        w.violate('C19', 'internal:%s' % t, {'in': self.opname(op, ev), 'raised_in': _where(e, w.lib.path)})
+
+    OPS = {'NEW': 'constructor', 'ADD': 'add_child', 'REMOVE': 'remove', 'REPLACE': 'replace_child', 'DOT_SET': 'dot assignment',
+           'DOT_GET': 'dot read', 'ATTR_SET': 'attribute assignment', 'ATTR_GET': 'attribute read', 'VALUE_SET': 'value assignment',
+           'TO_STRING': 'to_string', 'CHECK': 'final check', 'READ': 'read', 'DEEPCOPY': 'deepcopy', 'WRITE': 'write',
+           'PARSE': 'parse_musicxml'}
 
     def opname(self, op, ev):
-        return self.PUBLIC.get(ev.get('stage'), op['op'].lower())
+        return self.PUBLIC.get(ev.get('stage')) or self.OPS.get(op['op'], op['op'].lower())
 
     def unknown_dot_name(self, w, op):
         """AttributeError is documented only for a dot read/write whose name the model says is neither
@@ -305,6 +311,13 @@ class C19Documented(Checker):
             m = spec.model_for_element(node.name)
             return m is None or op['name'] not in m.alpha
         return False
+
+
+_ADDR = re.compile(r'0x[0-9a-fA-F]+')
+
+
+def scrub(text):
+    return _ADDR.sub('0x?', text)
 
 
 def _where(e, libpath):
@@ -340,3 +353,546 @@ class Reach(Checker):
             w.count('reach.serialised_ok')
         if ev.get('stdout'):
             w.count('reach.intelligent_choice_ran')
+
+
+# ---------------------------------------------------------------------------------- C10 (in-run part)
+class C10Snapshot(Checker):
+    """Immediately after each failing call the cheap observation (children in both views, attributes,
+    value of every node of the document) equals the one taken immediately before it."""
+
+    def before(self, w, op):
+        self.snap = None
+        if op['op'] in ('OBS', 'FAULT', 'NEW', 'DEEPCOPY', 'PARSE', 'FSPUT', 'FSSTATE'):
+            return
+        d = _doc_of(op)
+        root = w.docs.get(d)
+        if root is not None:
+            self.snap = (root, w.cheap_tree(root))
+
+    def after(self, w, op, ev):
+        if self.snap is None or ev['r'] != 'exc':
+            return
+        if ev['t'] in ('SimHang', 'SimInterrupt'):
+            return
+        root, before = self.snap
+        after = w.cheap_tree(root)
+        w.count('c10.failed_calls_judged')
+        if after != before:
+            k = 0
+            while k < len(before) and k < len(after) and before[k] == after[k]:
+                k += 1
+            w.violate('C10', 'state-changed-by-failed-call',
+                      {'failed_op': op['op'], 'stage': ev.get('stage'), 'exc': ev['t'],
+                       'before': before[k] if k < len(before) else None, 'after': after[k] if k < len(after) else None})
+
+
+# ---------------------------------------------------------------------------------- C13 (in-run part)
+class C13Others(Checker):
+    """The cheap observation of every *other* document is unchanged across each step of an actor."""
+
+    def before(self, w, op):
+        self.snap = None
+        if op['op'] in ('OBS', 'FAULT'):
+            return
+        d = _doc_of(op)
+        self.snap = {k: w.cheap_tree(r, cap=25) for k, r in w.docs.items() if k != d and
+                     not (op['op'] == 'DEEPCOPY' and k == op['p'][0])}
+
+    def after(self, w, op, ev):
+        if not self.snap:
+            return
+        for k, before in self.snap.items():
+            r = w.docs.get(k)
+            if r is None:
+                continue
+            if w.cheap_tree(r, cap=25) != before:
+                w.violate('C13', 'other-instance-changed', {'op': op['op'], 'on': _doc_of(op), 'changed': k,
+                                                            'elem': r.name})
+                return
+
+
+# ---------------------------------------------------------------------------------- C14 (in-run part)
+class C14Copy(Checker):
+    """At the copy: copy.to_string() equals original.to_string() (or both raise the same type) and the
+    original is unchanged by the copy."""
+
+    def before(self, w, op):
+        self.pre = None
+        if op['op'] == 'DEEPCOPY':
+            node = w.node(op['p'])
+            if node is not None:
+                self.pre = (node, w.cheap_tree(node), infork(lambda: w._quiet(lambda: w.verdict(node.el))))
+
+    def after(self, w, op, ev):
+        if self.pre is None:
+            return
+        node, cheap0, ts0 = self.pre
+        if ev['r'] == 'exc':
+            w.violate('C14', 'copy-raised', {'elem': node.name, 'exc': ev['t']})
+            return
+        if ev['r'] != 'ok':
+            return
+        w.count('c14.copies_judged')
+        cheap1 = w.cheap_tree(node)
+        ts1 = infork(lambda: w._quiet(lambda: w.verdict(node.el)))
+        if cheap1 != cheap0 or ts1 != ts0:
+            w.violate('C14', 'original-changed-by-copy', {'elem': node.name, 'ts_before': _clip(ts0), 'ts_after': _clip(ts1)})
+            return
+        cp = w.docs[op['doc']]
+        tsc = infork(lambda: w._quiet(lambda: w.verdict(cp.el)))
+        same = (tsc == ts0) if ts0[0] == 'text' else (tsc[0] == 'exc' and tsc[1] == ts0[1])
+        if not same:
+            w.violate('C14', 'copy-differs', {'elem': node.name, 'original': _clip(ts0), 'copy': _clip(tsc),
+                                              'diff': _textdiff(ts0, tsc)})
+
+
+def _clip(ts, n=300):
+    if isinstance(ts, list) and len(ts) > 1 and isinstance(ts[1], str) and len(ts[1]) > n:
+        return [ts[0], ts[1][:n] + '...']
+    return ts
+
+
+def _textdiff(a, b):
+    if a[0] != 'text' or b[0] != 'text':
+        return None
+    la, lb = a[1].split('\n'), b[1].split('\n')
+    for i, (x, y) in enumerate(zip(la, lb)):
+        if x != y:
+            return {'line': i, 'original': x.strip()[:160], 'copy': y.strip()[:160]}
+    return {'lines': [len(la), len(lb)]}
+
+
+# ---------------------------------------------------------------------------------- C16 (in-run part)
+class C16Serialise(Checker):
+    """(i) output is well-formed and a standard parser recovers exactly the shadow's strings and
+    structure; (ii) two consecutive serialisations are identical; (iv) a subtree's own serialisation has
+    the same infoset as that subtree inside its parent's."""
+
+    def after(self, w, op, ev):
+        if op['op'] != 'TO_STRING' or ev['r'] != 'ok':
+            return
+        node = w.node(op['p'])
+        text = w.text
+        try:
+            et = ET.fromstring(text)
+        except ET.ParseError as e:
+            w.violate('C16', 'not-wellformed', {'elem': node.name, 'error': str(e)[:100]})
+            return
+        w.count('c16.outputs_judged')
+        if op.get('twice'):
+            ic = bool(op.get('ic'))
+            r = w.call(lambda: node.el.to_string(intelligent_choice=True) if ic else node.el.to_string())
+            if r[0] != 'ok' or r[1] != text:
+                w.violate('C16', 'repeat-differs' + ('[ic]' if ic else ''), {'elem': node.name,
+                          'second': 'exc:' + type(r[1]).__name__ if r[0] != 'ok' else _textdiff(['text', text], ['text', r[1]])})
+                return
+        bad = _recover(node, et)
+        if bad:
+            w.violate('C16', 'string-not-recovered', bad)
+            return
+        # subtree vs inside parent: serialise one checked child alone and compare infosets
+        kids = [c for c in node.children if c.xsd_check]
+        if kids and op.get('subtree') is not None:
+            c = kids[op['subtree'] % len(kids)]
+            r = w.call(lambda: c.el.to_string())
+            if r[0] == 'ok':
+                try:
+                    sub = ET.fromstring(r[1])
+                except ET.ParseError:
+                    w.violate('C16', 'not-wellformed', {'elem': c.name, 'subtree': True})
+                    return
+                inside = [k for k in et if k.tag == c.name]
+                if not any(_infoset(k) == _infoset(sub) for k in inside):
+                    w.violate('C16', 'subtree-differs', {'elem': c.name, 'parent': node.name})
+
+
+def _infoset(e):
+    return (e.tag, tuple(sorted(e.attrib.items())), (e.text or '').strip() if len(e) else (e.text or ''),
+            tuple(_infoset(k) for k in e))
+
+
+def _recover(node, et):
+    """Strings and structure a standard parser recovers vs what the elements being serialised hold
+    (public reads: name, attributes, value_, get_children()).  Walking the library's own tree rather
+    than the shadow keeps matcher bookkeeping defects (C06) out of the escaping oracle; the shadow is
+    used for the strings the harness itself supplied."""
+    st = [(node.el, et, node)]
+    while st:
+        el, e, sh = st.pop()
+        if e.tag != el.name:
+            return {'elem': el.name, 'tag': e.tag}
+        want = {k: str(v) for k, v in el.attributes.items()}
+        got = dict(e.attrib)
+        if want != got:
+            return {'elem': el.name, 'want_attrs': want, 'got_attrs': got}
+        kids = list(el.get_children())
+        if len(kids) != len(e):
+            return {'elem': el.name, 'want_children': [k.name for k in kids], 'got_children': [k.tag for k in e]}
+        if not kids:
+            want_t = '' if el.value_ is None else str(el.value_)
+            got_t = e.text or ''
+            if want_t != got_t:
+                return {'elem': el.name, 'want_text': want_t, 'got_text': got_t}
+            if sh is not None and not sh.children and sh.el is el:
+                # what the harness supplied must be what the element holds
+                sv = '' if sh.value is None else str(sh.value)
+                if sv != got_t:
+                    return {'elem': el.name, 'supplied_text': sv, 'got_text': got_t}
+        byid = {id(c.el): c for c in sh.children} if sh is not None else {}
+        for k, ke in zip(kids, e):
+            st.append((k, ke, byid.get(id(k))))
+    return None
+
+
+# ---------------------------------------------------------------------------------- C11 (rebuild twin, in nested forks)
+def shadow_spec(n):
+    """childspec that rebuilds a shadow node (value, attributes as constructor keywords, children)."""
+    return {'name': n.name, 'value': n.value, 'attrs': {spec.py_attr_name(k): v for k, v in n.attrs.items()},
+            'xsd_check': n.xsd_check, 'kids': [shadow_spec(c) for c in n.children]}
+
+
+class C11Rebuild(Checker):
+    """After a successful removal on a checked element: it must be observationally equivalent to a fresh
+    element of the same class to which clones of the remaining children are added in the same relative
+    order (serialisation or missing-children verdict; acceptance of every further child)."""
+
+    def after(self, w, op, ev):
+        if ev['r'] != 'ok':
+            return
+        if op['op'] == 'REMOVE' and not op.get('foreign'):
+            pass
+        elif op['op'] == 'DOT_SET' and op['v']['kind'] == 'none':
+            pass
+        else:
+            return
+        node = w.node(op['p'])
+        if node is None or not node.xsd_check or spec.model_for_element(node.name) is None:
+            return
+        m = spec.model_for_element(node.name)
+        present = sorted({c.name for c in node.children})
+        others = [a for a in m.alpha if a not in present]
+        symbols = present + others[:max(0, 6 - len(present))]
+        if op.get('accept'):
+            symbols = sorted(set(symbols) | set(op['accept']))[:10]
+
+        def observe_live():
+            return w._quiet(lambda: [w.verdict(node.el), w._safe_req(node.el)])
+
+        def observe_fresh():
+            def f():
+                cs = shadow_spec(node)
+                kids = cs.pop('kids')
+                try:
+                    fresh = w.build(cs)
+                except BaseException as e:
+                    return ['construct-failed', type(e).__name__]
+                for k in kids:
+                    try:
+                        kn = w.build(k)
+                        fresh.el.add_child(kn.el)
+                        kn.parent = fresh
+                        fresh.children.append(kn)
+                    except BaseException as e:
+                        return ['rebuild-rejected', k['name'], type(e).__name__]
+                acc = {}
+                for s in symbols:
+                    acc[s] = infork(lambda: w._try_add(fresh, s))
+                return ['ok', w.verdict(fresh.el), w._safe_req(fresh.el), acc]
+            return w._quiet(f)
+
+        live = infork(observe_live)
+        fresh = infork(observe_fresh)
+        if not isinstance(fresh, list) or fresh[0] != 'ok':
+            w.count('c11.rebuild_undefined')
+            return
+        w.count('c11.removals_judged')
+        acc_live = {s: infork(lambda: w._quiet(lambda: w._try_add(node, s))) for s in symbols}
+        ts_l, req_l = live
+        _ok, ts_f, req_f, acc_f = fresh
+        base = {'elem': node.name, 'remaining': [c.name for c in node.children]}
+        rl, rf = set(req_l or []), set(req_f or [])
+        if rl != rf:
+            if rl > rf:
+                clause = 'spurious-required'
+            elif rl < rf:
+                clause = 'missing-required'
+            else:
+                clause = 'required-differs'
+            base.update({'after_removal': sorted(rl), 'fresh': sorted(rf)})
+            w.violate('C11', clause, base)
+            return
+        less = sorted(s for s in symbols if acc_f[s] == 'ok' and acc_live[s] != 'ok')
+        more = sorted(s for s in symbols if acc_f[s] != 'ok' and acc_live[s] == 'ok')
+        if less:
+            base.update({'rejected_after_removal': less, 'how': acc_live[less[0]]})
+            w.violate('C11', 'accepts-less', base)
+            return
+        if more:
+            base.update({'accepted_only_after_removal': more, 'fresh_says': acc_f[more[0]]})
+            w.violate('C11', 'accepts-more', base)
+            return
+        if ts_l[0] != ts_f[0] or (ts_l[0] == 'exc' and ts_l[1] != ts_f[1]):
+            base.update({'after_removal': _clip(ts_l, 120), 'fresh': _clip(ts_f, 120)})
+            w.violate('C11', 'verdict-differs', base)
+            return
+        if ts_l[0] == 'text' and ts_l[1] != ts_f[1]:
+            base.update({'diff': _textdiff(ts_l, ts_f)})
+            w.violate('C11', 'order-differs', base)
+
+
+# ---------------------------------------------------------------------------------- C04
+XML_NS = '{http://www.w3.org/XML/1998/namespace}'
+XLINK_NS = '{http://www.w3.org/1999/xlink}'
+
+
+def expanded(schema_name):
+    if schema_name.startswith('xml:'):
+        return XML_NS + schema_name[4:]
+    if schema_name.startswith('xlink:'):
+        return XLINK_NS + schema_name[6:]
+    return schema_name
+
+
+class C04Attributes(Checker):
+    """Reference attribute store: assignment succeeds iff declared and certainly valid, fails iff
+    undeclared or certainly invalid; nothing stored after a failure; to_string refuses when a required
+    attribute is absent, otherwise emits exactly the store under schema names; None removes."""
+
+    def before(self, w, op):
+        self.pre = None
+        if op['op'] == 'ATTR_SET':
+            node = w.node(op['p'])
+            if node is not None:
+                try:
+                    self.pre = dict(node.el.attributes)
+                except Exception:
+                    self.pre = None
+
+    def _status(self, elem, pyname, value):
+        """'valid' | 'invalid' | 'undeclared' | 'uncertain'"""
+        sn = schema_attr_name(elem, pyname)
+        if sn is None:
+            return 'undeclared', None
+        d = spec.attributes_of_element(elem)[sn]
+        good, bad = spec.exemplars(d['type'])
+        if d.get('fixed') is not None:
+            return ('valid' if value == d['fixed'] else 'uncertain'), sn
+        if any(value == g and type(value) is type(g) for g in good):
+            return 'valid', sn
+        if any(value == b and type(value) is type(b) for b in bad):
+            return 'invalid', sn
+        return 'uncertain', sn
+
+    def after(self, w, op, ev):
+        k = op['op']
+        if k == 'ATTR_SET':
+            node = w.node(op['p'])
+            if node is None or ev['r'] == 'skip':
+                return
+            val = op['value']
+            if val is None:
+                if ev['r'] == 'ok':
+                    sn = schema_attr_name(node.name, op['name'])
+                    keys = {op['name'].replace('_', '-')} | ({sn} if sn else set())
+                    if any(x in node.el.attributes for x in keys):
+                        w.violate('C04', 'none-did-not-remove', {'elem': node.name, 'attr': op['name']})
+                return
+            st, sn = self._status(node.name, op['name'], val)
+            w.count('c04.sets_judged.' + st)
+            w.c04_pairs = getattr(w, 'c04_pairs', set())
+            if sn:
+                w.c04_pairs.add((node.name, sn))
+            if ev['r'] == 'ok':
+                if st == 'undeclared':
+                    w.violate('C04', 'undeclared-accepted', {'elem': node.name, 'attr': op['name']})
+                elif st == 'invalid':
+                    w.violate('C04', 'invalid-accepted', {'elem': node.name, 'attr': sn, 'value': val})
+            else:
+                if st == 'valid':
+                    w.violate('C04', 'declared-valid-rejected', {'elem': node.name, 'attr': sn, 'value': val, 'exc': ev['t']})
+                if self.pre is not None:
+                    try:
+                        now = dict(node.el.attributes)
+                    except Exception:
+                        now = None
+                    if now != self.pre:
+                        w.violate('C04', 'stored-after-failure', {'elem': node.name, 'attr': op['name']})
+        elif k == 'NEW' and op.get('c04'):
+            # constructor keyword surface
+            cs = op['c']
+            for py, val in (cs.get('attrs') or {}).items():
+                st, sn = self._status(cs['name'], py, val)
+                w.count('c04.ctor_judged.' + st)
+                if ev['r'] == 'ok' and st == 'undeclared':
+                    w.violate('C04', 'undeclared-accepted', {'elem': cs['name'], 'attr': py, 'via': 'ctor'})
+                elif ev['r'] == 'ok' and st == 'invalid':
+                    w.violate('C04', 'invalid-accepted', {'elem': cs['name'], 'attr': sn, 'value': val, 'via': 'ctor'})
+                elif ev['r'] == 'exc' and len(cs['attrs']) == 1 and st == 'valid':
+                    w.violate('C04', 'declared-valid-rejected', {'elem': cs['name'], 'attr': sn, 'value': val,
+                                                                 'exc': ev['t'], 'via': 'ctor'})
+        elif k == 'TO_STRING':
+            node = w.node(op['p'])
+            if node is None or not node.xsd_check:
+                return
+            table = spec.attributes_of_element(node.name)
+            missing = [a for a, d in table.items() if d['required'] and a not in node.attrs]
+            if ev['r'] == 'ok':
+                if missing:
+                    w.violate('C04', 'required-not-enforced', {'elem': node.name, 'missing': missing})
+                    return
+                et = parse_children(w.text)
+                if et is None:
+                    return
+                want = {expanded(a): str(v) for a, v in node.attrs.items()}
+                got = dict(et.attrib)
+                w.count('c04.outputs_judged')
+                if want != got:
+                    if set(want) != set(got) and sorted(x.split('}')[-1].split(':')[-1] for x in want) == \
+                            sorted(x.split('}')[-1] for x in got) and len(want) == len(got):
+                        w.violate('C04', 'serialised-name-differs', {'elem': node.name, 'want': sorted(want), 'got': sorted(got)})
+                    else:
+                        w.violate('C04', 'serialised-set-differs', {'elem': node.name, 'want': want, 'got': got})
+            elif ev['r'] == 'exc' and ev['t'] == 'XSDAttributeRequiredException' and not missing:
+                # raised for this element although nothing is missing here (children are opaque)
+                deeper = any(c.xsd_check for c in node.walk() if c is not node)
+                if not deeper:
+                    w.violate('C04', 'required-spurious', {'elem': node.name})
+
+
+# ---------------------------------------------------------------------------------- C18
+class C18Unchecked(Checker):
+    """Operations on an unchecked element never raise for structural reasons; its children serialise in
+    insertion order; a checked element nested under it still validates what is added to it and still
+    refuses its own to_string() while incomplete."""
+
+    def after(self, w, op, ev):
+        k = op['op']
+        if k in ('ADD', 'REMOVE', 'REPLACE', 'TO_STRING') and 'p' in op:
+            node = w.node(op['p'])
+            if node is None or ev['r'] == 'skip':
+                return
+            if not node.xsd_check:
+                if ev['r'] == 'exc' and ev.get('stage') in ('add', 'remove', 'replace', 'to_string') and not op.get('foreign'):
+                    if k == 'TO_STRING':
+                        # may legitimately raise when a *checked* descendant is incomplete? No: an unchecked
+                        # root runs no final checks at all.  Value/required-attribute errors cannot occur
+                        # either because nothing is checked.
+                        pass
+                    w.violate('C18', 'unchecked-raised', {'elem': node.name, 'op': k, 'exc': ev['t'],
+                                                          'child': (op.get('c') or {}).get('name')})
+                    return
+                if k == 'TO_STRING' and ev['r'] == 'ok':
+                    et = parse_children(w.text)
+                    if et is not None:
+                        w.count('c18.unchecked_outputs_judged')
+                        got = [x.tag for x in et]
+                        want = [c.name for c in node.children]
+                        if got != want:
+                            w.violate('C18', 'unchecked-reordered', {'elem': node.name, 'want': want, 'got': got})
+            else:
+                # checked node somewhere below an unchecked ancestor
+                if node.fully_checked_path():
+                    return
+                m = spec.model_for_element(node.name)
+                if k == 'ADD' and op.get('fwd') is None and ev['r'] == 'ok' and m is not None:
+                    w.count('c18.nested_checked_adds_judged')
+                    if not m.extendable([c.name for c in node.children]):
+                        w.violate('C18', 'nested-checked-not-enforced', {'elem': node.name,
+                                                                         'children': [c.name for c in node.children]})
+                if k == 'TO_STRING' and ev['r'] == 'ok' and m is not None:
+                    et = parse_children(w.text)
+                    if et is not None and not m.accepts([x.tag for x in et]):
+                        if not w.c18_tainted(node):
+                            w.violate('C18', 'nested-checked-serialised-incomplete', {'elem': node.name, 'word': [x.tag for x in et]})
+        if op.get('c18twin') and ev['r'] == 'ok' and k == 'TO_STRING':
+            # byte-identity with the checked twin: program serialises the unchecked doc then the checked
+            # twin (same children supplied in a schema-valid order)
+            tag = op['c18twin']
+            if tag['role'] == 'unchecked':
+                w.c18_text = w.text
+            else:
+                w.count('c18.twins_judged')
+                if getattr(w, 'c18_text', None) is not None and w.c18_text != w.text:
+                    w.violate('C18', 'twin-bytes-differ', {'elem': w.node(op['p']).name,
+                                                           'diff': _textdiff(['text', w.c18_text], ['text', w.text])})
+                w.c18_text = None
+
+
+# ---------------------------------------------------------------------------------- C15
+def _shape(w, node):
+    """Public-side structural summary used to compare the two surfaces."""
+    el = node.el
+    try:
+        kids = el.get_children(ordered=True)
+    except Exception as e:
+        return ['!' + type(e).__name__]
+    out = []
+    for k in kids:
+        try:
+            out.append([k.name, k.value_ if isinstance(k.value_, (int, float, str, type(None))) else repr(k.value_),
+                        sorted((a, str(v)) for a, v in k.attributes.items()), len(k.get_children(ordered=False))])
+        except Exception as e:
+            out.append(['!' + type(e).__name__])
+    try:
+        at = sorted((a, str(v)) for a, v in el.attributes.items())
+    except Exception as e:
+        at = ['!' + type(e).__name__]
+    return [at, out]
+
+
+class C15Surfaces(Checker):
+    """One abstract program rendered on the explicit API (doc A) and on the shortcut syntax (doc B):
+    each step is rejected on one surface iff on the other, and afterwards both elements look the same;
+    dot reads return the child serialisation shows / the stored attribute, or None for what the schema
+    allows but is not set."""
+
+    def after(self, w, op, ev):
+        if op['op'] == 'PAIR' and ev['r'] == 'ok':
+            self._judge(w, op, ev['v'])
+        if op['op'] == 'DOT_GET' and ev['r'] != 'skip':
+            node = w.node(op['p'])
+            m = spec.model_for_element(node.name)
+            if m is None or op['name'] not in m.alpha:
+                return
+            w.count('c15.dot_reads_judged')
+            same = [i for i, c in enumerate(node.children) if c.name == op['name']]
+            if ev['r'] == 'exc':
+                w.violate('C15', 'dot-read-raises', {'elem': node.name, 'name': op['name'], 'exc': ev['t'], 'set': bool(same)})
+            elif not same and ev.get('v') is not None:
+                w.violate('C15', 'dot-read-wrong-child', {'elem': node.name, 'name': op['name'], 'got': ev.get('v'), 'want': None})
+            elif same and (not isinstance(ev.get('v'), list) or ev['v'][0] != 'child' or ev['v'][1] not in same):
+                w.violate('C15', 'dot-read-wrong-child', {'elem': node.name, 'name': op['name'], 'got': ev.get('v'), 'want': same})
+        if op['op'] == 'ATTR_GET' and ev['r'] != 'skip':
+            node = w.node(op['p'])
+            sn = schema_attr_name(node.name, op['name'])
+            if sn is None:
+                return
+            w.count('c15.attr_reads_judged')
+            want = node.attrs.get(sn)
+            if ev['r'] == 'exc':
+                w.violate('C15', 'attr-read-wrong', {'elem': node.name, 'attr': sn, 'exc': ev['t']})
+            elif ev.get('v') != want:
+                w.violate('C15', 'attr-read-wrong', {'elem': node.name, 'attr': sn, 'got': ev.get('v'), 'want': want})
+
+    def _judge(self, w, op, v):
+        ea, eb = v['explicit'], v['shortcut']
+        if any(r[0] == 'skip' for r in ea + eb):
+            return
+        w.count('c15.pairs_judged')
+        ra = any(r[0] == 'exc' for r in ea)
+        rb = any(r[0] == 'exc' for r in eb)
+        step = op.get('step')
+        if ra != rb:
+            w.violate('C15', 'surfaces-differ-rejection', {'step': step, 'explicit': [r[1] for r in ea if r[0] == 'exc'] or 'ok',
+                                                           'shortcut': [r[1] for r in eb if r[0] == 'exc'] or 'ok'})
+            return
+        if step == 'serialise':
+            if not ra and ea[-1][1] != eb[-1][1]:
+                w.violate('C15', 'surfaces-differ-output', {'step': step})
+            return
+        na, nb = w.docs.get('dA'), w.docs.get('dB')
+        if na is None or nb is None:
+            return
+        sa, sb = _shape(w, na), _shape(w, nb)
+        if sa != sb:
+            w.violate('C15', 'surfaces-differ-output', {'step': step, 'explicit': sa, 'shortcut': sb})
